@@ -1136,7 +1136,15 @@ class AttrAssignParser(BaseAssignParser):
             ]
 
             def bases_hook(inst):
-                args = [mx.get_object(base) for base in inst.args]
+                args = []
+                for base in inst.args:
+                    # Through the space containers: a space may be named
+                    # like an attribute of the interface (doc, name, refs...)
+                    parts = base.split(".")
+                    obj = mx.get_models()[parts.pop(0)]
+                    for part in parts:
+                        obj = obj.spaces[part]
+                    args.append(obj)
                 return args, inst.kwargs
 
             return Instruction.from_method(
